@@ -125,9 +125,18 @@ def build_alphabet(m, ents, rng=None, small=False):
     # find on unchanged data
     finders = [X.call("FindInPaths", c) for c in cfgs] + [X.call("FindInPaths"), X.call("FindInAll"),
                                                             X.call("FindInList", sorted(ents))]
+    # ... and the same finders as long-lived instances the client keeps and re-uses
+    finders += [X.held(X.call("FindInPaths", cfgs[0])), X.held(X.call("FindInAll")), X.held(X.call("FindInList", sorted(ents)))]
+    vi = keys.index("version") if "version" in keys else max(0, len(segs) - 3)
+    last = "/".join(segs[:vi] + [">"] + segs[vi + 1:])           # '>' at the version position
+    const = "/".join(segs[:vi] + ["*"] + segs[vi + 1:vi + 2])    # a constant-backed level below a searched parent
     for F in finders:
-        for s in (star, star2, dstar, f, al):
+        for s in (star, star2, dstar, f, al, last, const):
             add("find", X.meth(F, "find", s))
+        add("find_one", X.meth(F, "find_one", last))
+        add("find", X.meth(F, "exists", last))
+        add("find", X.meth(F, "exists", const))
+        add("find_one", X.meth(F, "find_one", const))
         add("find_one", X.meth(F, "find_one", star2))
         add("find_one", X.meth(F, "find_one", dstar))
         add("find", X.meth(F, "find", star, as_sid=False))
@@ -191,6 +200,21 @@ class HistoryProfile(StoreProfile):
         if r < 0.04:
             return {"op": "restart"}
         if r < 0.09:
+            files = [e for e in run.store.listing(m.default_config) if m.is_leaf_type(m.natural_type(e))]
+            if files and rng.random() < 0.6:
+                # a new version next to the file most searches are built around
+                f = files[0]
+                tn = m.natural_type(f)
+                ks = m.by_name[tn].keys
+                if "version" in ks:
+                    segs = f.split("/")
+                    vals = self.vocab(run).values(tn, "version") or []
+                    rng.shuffle(vals)
+                    for v in vals:
+                        segs[ks.index("version")] = v
+                        cand = "/".join(segs)
+                        if all(run.store.can_create(c, cand) == "ok" for c in m.configs):
+                            return {"op": "mirror", "sid": cand, "data": None}
             extra = self.plan_universe(run, run.store.clone(), 1, mirror=True, data_p=0.0)
             if extra:
                 return extra[0]
